@@ -54,17 +54,19 @@ func (r *c14registrar) Resolve(node gen.Atom) ([]gen.Route, error) {
 	}
 	return nil, gen.ErrNoRoute
 }
-func (r *c14registrar) ResolveProxy(gen.Atom) ([]gen.ProxyRoute, error)             { return nil, gen.ErrNoRoute }
-func (r *c14registrar) ResolveApplication(gen.Atom) ([]gen.ApplicationRoute, error) { return nil, gen.ErrNoRoute }
-func (r *c14registrar) RegisterProxy(gen.Atom) error                                { return gen.ErrUnsupported }
-func (r *c14registrar) UnregisterProxy(gen.Atom) error                              { return gen.ErrUnsupported }
-func (r *c14registrar) RegisterApplicationRoute(gen.ApplicationRoute) error         { return nil }
-func (r *c14registrar) UnregisterApplicationRoute(gen.Atom) error                   { return nil }
-func (r *c14registrar) Nodes() ([]gen.Atom, error)                                  { return nil, gen.ErrUnsupported }
-func (r *c14registrar) Config(...string) (map[string]any, error)                    { return nil, gen.ErrUnsupported }
-func (r *c14registrar) ConfigItem(string) (any, error)                              { return nil, gen.ErrUnsupported }
-func (r *c14registrar) Event() (gen.Event, error)                                   { return gen.Event{}, gen.ErrUnsupported }
-func (r *c14registrar) Info() gen.RegistrarInfo                                     { return gen.RegistrarInfo{Server: "c14-mem"} }
+func (r *c14registrar) ResolveProxy(gen.Atom) ([]gen.ProxyRoute, error) { return nil, gen.ErrNoRoute }
+func (r *c14registrar) ResolveApplication(gen.Atom) ([]gen.ApplicationRoute, error) {
+	return nil, gen.ErrNoRoute
+}
+func (r *c14registrar) RegisterProxy(gen.Atom) error                        { return gen.ErrUnsupported }
+func (r *c14registrar) UnregisterProxy(gen.Atom) error                      { return gen.ErrUnsupported }
+func (r *c14registrar) RegisterApplicationRoute(gen.ApplicationRoute) error { return nil }
+func (r *c14registrar) UnregisterApplicationRoute(gen.Atom) error           { return nil }
+func (r *c14registrar) Nodes() ([]gen.Atom, error)                          { return nil, gen.ErrUnsupported }
+func (r *c14registrar) Config(...string) (map[string]any, error)            { return nil, gen.ErrUnsupported }
+func (r *c14registrar) ConfigItem(string) (any, error)                      { return nil, gen.ErrUnsupported }
+func (r *c14registrar) Event() (gen.Event, error)                           { return gen.Event{}, gen.ErrUnsupported }
+func (r *c14registrar) Info() gen.RegistrarInfo                             { return gen.RegistrarInfo{Server: "c14-mem"} }
 func (r *c14registrar) Terminate() {
 	r.reg.mu.Lock()
 	delete(r.reg.routes, r.node)
@@ -496,6 +498,16 @@ func c14runScenario(p *c14pair, sc c14Scen) c14result {
 		}
 		time.Sleep(time.Millisecond)
 	}
+	if n, _, _ := count(); n == 0 {
+		// nothing yet: before calling it lost, give a loaded machine a lot more time
+		deadline = time.Now().Add(9 * time.Second)
+		for time.Now().Before(deadline) {
+			if n, _, _ := count(); n > 0 {
+				break
+			}
+			time.Sleep(5 * time.Millisecond)
+		}
+	}
 	time.Sleep(25 * time.Millisecond)
 	n, kinds, reasons := count()
 	desc := fmt.Sprintf("%s on remote %s, fault=%s, creations differ=%v", sc.Rel, sc.Kind, sc.Fault, sc.Distinct)
@@ -512,7 +524,7 @@ func c14runScenario(p *c14pair, sc c14Scen) c14result {
 		if sc.Fault == "terminate" {
 			res.sig = "C14/remote-termination-lost"
 		}
-		res.violation = fmt.Sprintf("%s: the holder received no %s within %v (target gone: %v; holder's messages: %v)", desc, expKind, step, gone, p.rec.at(h))
+		res.violation = fmt.Sprintf("%s: the holder received no %s within %v + 9 s (target gone: %v; holder's messages: %v)", desc, expKind, step, gone, p.rec.at(h))
 	case n > 1:
 		res.sig = "C14/notification-duplicated"
 		res.violation = fmt.Sprintf("%s: the holder received %d notifications %v %v", desc, n, kinds, reasons)
@@ -592,7 +604,7 @@ func c14calls(c *Ctx, p *c14pair) {
 			r.Count("nodes.call-in-flight")
 			if o.err == nil {
 				r.Violation("C14/call-answered-by-nobody", fmt.Sprintf("call to remote %s returned without error although the target never answers and the connection was cut", o.kind), o.kind)
-			} else if o.took > 2500*time.Millisecond {
+			} else if o.took > 5*time.Second {
 				r.Violation("C14/call-late", fmt.Sprintf("call to remote %s with timeout 1 s returned after %v (%v)", o.kind, o.took, o.err), o.kind)
 			}
 		case <-time.After(9 * time.Second):
@@ -673,6 +685,11 @@ func c14stale(c *Ctx, p *c14pair) {
 		}
 		r.Case("stale/"+t.name, true)
 		r.Count("nodes.stale-incarnation-op")
+		if e != gen.ErrProcessIncarnation && e != nil && e != gen.ErrTimeout {
+			// the connection to the new incarnation could not be made (loaded machine): the identifier was not accepted either
+			r.Count("inconclusive.stale-op-no-connection")
+			continue
+		}
 		if e != gen.ErrProcessIncarnation {
 			r.Violation("C14/stale-incarnation-accepted", fmt.Sprintf("%s with an identifier of the previous incarnation of %s returned %v, want ErrProcessIncarnation (same-id process in the new incarnation: %v)", t.name, p.nameB, e, same), t.name)
 		}
